@@ -82,6 +82,14 @@ func (g *gm) mgmtActions(withGC, withRestart bool) map[string]func(*rapid.T) {
 		g.applyPubNS(Op{K: "pubns", Name: name, Scope: list})
 	}
 	acts["rejectedBatch"] = g.rejectedBatchAction()
+	acts["rejectedRename"] = func(t *rapid.T) {
+		g.t = t
+		if len(g.live()) < 2 {
+			t.Skip("needs two datasets")
+		}
+		names := rapid.Permutation(g.live()).Draw(t, "names")
+		g.applyBadRename(Op{K: "badrename", Name: names[0], ID: names[1], Via: via(t)})
+	}
 	if withGC {
 		acts["gc"] = func(t *rapid.T) {
 			g.t = t
